@@ -135,9 +135,9 @@ var c12opts = []struct {
 	}},
 }
 
-func c12Body(t *testing.T, depth, maxPeers int) func(c *verifeng.Chooser) {
+func c12Body(t *testing.T, depth, maxPeers int, bursts bool) func(c *verifeng.Chooser) {
 	return func(c *verifeng.Chooser) {
-		out := verifbubble.Run(t, func() { c12Run(c, depth, maxPeers) })
+		out := verifbubble.Run(t, func() { c12Run(c, depth, maxPeers, bursts) })
 		switch {
 		case out.Panic != nil:
 			if ie, ok := out.Panic.(verifeng.InfraError); ok {
@@ -154,7 +154,11 @@ func c12Body(t *testing.T, depth, maxPeers int) func(c *verifeng.Chooser) {
 	}
 }
 
-func c12Run(c *verifeng.Chooser, depth, maxPeers int) {
+func c12Run(c *verifeng.Chooser, depth, maxPeers int, bursts bool) {
+	var burst *verifbubble.Burst
+	if bursts {
+		burst = verifbubble.NewBurst(c)
+	}
 	h := &c12h{c: c, finished: map[int]bool{}, handled: map[int]int{}, parked: map[int]chan struct{}{}, parkedAddr: map[int]string{}}
 	var stopTask *verifbubble.Task
 	peerFeed := make(chan query.Peer)
@@ -300,6 +304,7 @@ func c12Run(c *verifeng.Chooser, depth, maxPeers int) {
 	}
 	for d := 0; d < depth && !c.Failed(); d++ {
 		verifbubble.Wait()
+		burst.End()
 		dedupeOut()
 		if idlePeerUnused() {
 			return
@@ -397,7 +402,7 @@ func c12Run(c *verifeng.Chooser, depth, maxPeers int) {
 			break
 		}
 		e := menu[c.ChooseFree(len(menu), "event")]
-		c.Step("%s", e.name)
+		c.Step("%s%s", e.name, burst.Begin())
 		if !e.run() {
 			return
 		}
@@ -406,6 +411,8 @@ func c12Run(c *verifeng.Chooser, depth, maxPeers int) {
 		return
 	}
 	verifbubble.Wait()
+	burst.End()
+	burst.Off()
 	for id, g := range h.parked {
 		delete(h.parked, id)
 		close(g)
@@ -589,7 +596,7 @@ func TestVFXC12(t *testing.T) {
 		}
 		fmt.Sscanf(v.Config, "depth=%d peers=%d", &depth, &peers)
 		e := verifeng.FromEnv(v.Harness, v.Config)
-		_, x, err := e.ReplayFile(rp, c12Body(t, depth, peers))
+		_, x, err := e.ReplayFile(rp, c12Body(t, depth, peers, strings.Contains(v.Config, "in-burst")))
 		if err != nil {
 			t.Fatal(err)
 		}
@@ -604,7 +611,15 @@ func TestVFXC12(t *testing.T) {
 		return
 	}
 	e := verifeng.FromEnv("C12-dispatcher", fmt.Sprintf("depth=%d peers=%d", depth, peers))
-	e.Run(c12Body(t, depth, peers))
+	e.Run(c12Body(t, depth, peers, false))
+	if err := verifeng.AppendResult(&e.Res); err != nil {
+		t.Fatal(err)
+	}
+	// the order inside a burst as a further dimension (DESIGN 3.7)
+	bd := depth - 2
+	e = verifeng.FromEnv("C12-dispatcher", fmt.Sprintf("depth=%d peers=%d in-burst deviations<=1", bd, peers))
+	e.MaxDev = 1
+	e.Run(c12Body(t, bd, peers, true))
 	if err := verifeng.AppendResult(&e.Res); err != nil {
 		t.Fatal(err)
 	}
